@@ -51,6 +51,7 @@ Definition op_keys (o : op) : list bytes :=
   match o with
   | SetTimer k _ => [k]
   | AdvanceSet _ _ during => map (fun e => snd (fst e)) during
+  | AdvancePartial _ _ _ during => map (fun e => snd (fst e)) during
   | _ => []
   end.
 Fixpoint add_key (k : bytes) (l : list bytes) : list bytes :=
@@ -74,9 +75,18 @@ Definition o_check (out due : list fired) : list N :=
   (if forallb (fun x => (count_fired x out <=? count_fired x due)%nat) out then [] else [11]) ++
   (if forallb (fun x => (count_fired x due <=? count_fired x out)%nat) due then [] else [12]).
 
-Fixpoint oracle (obs dues : list (list fired)) : list N :=
-  match obs, dues with
-  | out :: obs', due :: dues' => o_check out due ++ oracle obs' dues'
+(* the consumer stopped after k items ([partial_ok]): 10 also when a due timer that was not handed out is earlier than one
+   that was; 12 when fewer than min(k, number of due timers) were handed out *)
+Definition o_check_partial (k : nat) (out due : list fired) : list N :=
+  (if time_sorted out &&
+      forallb (fun x => forallb (fun y => existsb (fired_eqb y) out || (snd x <=? snd y)%Z) due) out then [] else [10]) ++
+  (if forallb (fun x => (count_fired x out <=? count_fired x due)%nat) out then [] else [11]) ++
+  (if (Nat.min k (length due) <=? length out)%nat then [] else [12]).
+
+Fixpoint oracle (obs : list (list fired)) (exps : list expect) : list N :=
+  match obs, exps with
+  | out :: obs', (due, None) :: exps' => o_check out due ++ oracle obs' exps'
+  | out :: obs', (due, Some k) :: exps' => o_check_partial k out due ++ oracle obs' exps'
   | _, _ => []
   end.
 
@@ -119,6 +129,22 @@ Definition tl_check (pre : list hcall) (marks : list N) (post : list hcall) (wfi
   let '(P, codes) := fold_left (fun st c => tl_call c st) (map (keep_marked marks) pre ++ post) ([], []) in
   codes ++ (if existsb (is_due wfinal) P then [12] else []).
 
+(* When a consumer stops after k items and several due timers of DIFFERENT keys carry the same timestamp, which of them
+   it was handed depends on the heap layout (not modelled): from then on the model's pending set may legitimately differ
+   from the implementation's.  Such histories are compared with the specification only (it follows the observed hand-outs). *)
+Definition op_regs (o : op) : list fired :=
+  match o with
+  | SetTimer k t => [(k, t)]
+  | AdvanceSet _ _ during => map (fun e => (snd (fst e), snd e)) during
+  | AdvancePartial _ _ _ during => map (fun e => (snd (fst e), snd e)) during
+  | _ => []
+  end.
+Definition has_partial (ops : list op) : bool :=
+  existsb (fun o => match o with AdvancePartial _ _ _ _ => true | _ => false end) ops.
+Definition has_ties (ops : list op) : bool :=
+  let regs := flat_map op_regs ops in
+  existsb (fun a => existsb (fun b => (snd a =? snd b)%Z && negb (beqb (fst a) (fst b))) regs) regs.
+
 Definition check_case (c : case) : list N :=
   match c with
   | TB pre marks post wfinal => dedup (tl_check pre marks post wfinal)
@@ -128,10 +154,11 @@ Definition check_case (c : case) : list N :=
                     cf_cache := cache; cf_srids := srids |} in
       let model := fst (TimerRegistry.run cfg ops (sys_new cfg [])) in
       let m :=
+        if has_partial ops && has_ties ops then [] else
         if (length model =? length observed)%nat
         then if list_eqb (list_eqb fired_eqb) (map sort_fired model) (map sort_fired observed) then [] else [2]
         else [1] in
-      let sp := dedup (oracle observed (fst (spec_run srids ops (spec_new srids [])))) in
+      let sp := dedup (oracle observed (fst (spec_run srids ops observed (spec_new srids [])))) in
       m ++ (if pre_epoch ops then (match sp with [] => [] | _ => [19] end) else sp)
   end.
 
